@@ -4,17 +4,26 @@ import (
 	"fmt"
 	"reflect"
 
+	alt "verif.local/harness/alt/world"
 	"verif.local/simrt"
 )
 
+// Twin types: indices TwinBase and TwinBase+1 are alt.T0 and alt.T1, which
+// print exactly like pool types 0 and 1.
+const (
+	TwinBase    = NumTypes
+	NumTypesAll = NumTypes + 2
+)
+
 func init() {
+	Types = append(Types, reflect.TypeOf(alt.T0{}), reflect.TypeOf(alt.T1{}))
 	for i, t := range Types {
 		simrt.RegisterType(t, i)
 	}
 }
 
 // IsIface reports whether pool type t is an interface type.
-func IsIface(t int) bool { return t >= IfaceBase }
+func IsIface(t int) bool { return t >= IfaceBase && t < IfaceBase+NumIface }
 
 // Implements reports whether pool type s can be assigned to pool type p.
 func Implements(s, p int) bool {
@@ -31,7 +40,7 @@ func Implements(s, p int) bool {
 func Implementors(p int) []int {
 	var out []int
 	for i := 0; i < IfaceBase; i++ {
-		if Types[i].Implements(Types[p]) {
+		if IsIface(p) && Types[i].Implements(Types[p]) {
 			out = append(out, i)
 		}
 	}
@@ -63,6 +72,10 @@ func MakeValue(t int, id uint64) interface{} {
 		return mkStruct(t, id)
 	case t < IfaceBase:
 		return mkPtr(t-PtrBase, id)
+	case t == TwinBase:
+		return alt.T0{ID: id}
+	case t == TwinBase+1:
+		return alt.T1{ID: id}
 	default:
 		return MakeValue(Implementors(t)[0], id)
 	}
